@@ -88,3 +88,18 @@ contract(
     logs=True,
     props=["C03"],
 )
+
+# verify -dh: the exit decision (the statement's exit code 12) for every value of the failure bookkeeping
+contract(
+    "ascmhl.commands.verify_directory_hash_subcommand",
+    params={"root_path": "str", "verbose": "bool", "hash_format": "str?", "ignore_list": "list[str]?", "ignore_spec_file": "str?",
+            "calculate_only": "bool", "root_only": "bool"},
+    start_at="exception = None",
+    locals={"failures_per_format_lookup": "dict[str,int]", "hash_format_list": "list[str]"},
+    raises={
+        "VerificationDirectoriesFailedException": "len(failures_per_format_lookup.keys()) > 0 and len(failures_per_format_lookup.keys()) == len(hash_format_list)",
+    },
+    raises_iff=True,
+    ensures=["not (len(failures_per_format_lookup.keys()) > 0 and len(failures_per_format_lookup.keys()) == len(hash_format_list))"],
+    props=["C09"],
+)
